@@ -53,6 +53,10 @@ func genC02(r *rand.Rand, kind string) *Scenario {
 		st := CycleStep{Curve: cur, DtMs: 200, Polls: pick(r, 1, 1, 2, 5)}
 		if r.Intn(30) == 0 {
 			cur = r.Intn(256)
+			if r.Intn(5) == 0 {
+				// curve values outside 0..255 (a step curve with a negative speed, a sum of curves): still never below the minimum
+				cur = pick(r, -1, -30, -1000, 256, 300, 100000)
+			}
 		}
 		if !stalled && r.Intn(12) == 0 {
 			t := pick(r, 256, 256, 1+r.Intn(255))
